@@ -324,16 +324,12 @@ impl World {
     match ctx.ch.weighted(&weights) {
       0 => {
         if self.bag.is_empty() {
-          self.emit(p, ctx);
-          Ok(())
+          self.emit(p, ctx)
         } else {
           self.deliver_at(0, false, ctx)
         }
       }
-      1 => {
-        self.emit(p, ctx);
-        Ok(())
-      }
+      1 => self.emit(p, ctx),
       2 => {
         let i = ctx.ch.index(self.bag.len());
         if i > 0 {
@@ -479,11 +475,11 @@ impl World {
     self.push_flight(wi, vec![hb], ctx);
   }
 
-  fn emit(&mut self, p: &Params, ctx: &mut Ctx) {
+  fn emit(&mut self, p: &Params, ctx: &mut Ctx) -> Check {
     let wi = ctx.ch.index(self.writers.len());
     let written = self.writers[wi].written();
     let can_write = written < p.max_sn;
-    let weights: [u64; 7] = [
+    let weights: [u64; 8] = [
       if can_write { 10 } else { 0 }, // 0 write next
       4,                              // 1 heartbeat
       if written > 0 { 3 } else { 0 }, // 2 resend something
@@ -491,6 +487,7 @@ impl World {
       if written > 0 { 1 } else { 0 }, // 4 drop history (advance first)
       if !self.writers[wi].matched { 3 } else { 0 }, // 5 (late) match
       if p.wide_window && can_write { 3 } else { 0 }, // 6 burst of writes whose DATA is lost at once
+      if p.wide_window && can_write && self.writers[wi].matched { 3 } else { 0 }, // 7 long healthy stretch: many writes delivered in order
     ];
     match ctx.ch.weighted(&weights) {
       0 => self.emit_write(wi, p, ctx),
@@ -516,6 +513,32 @@ impl World {
         ctx.count("op.writer_drops_history");
       }
       5 => self.do_match(wi, ctx),
+      7 => {
+        // a long stretch without faults: the reader's ack base moves far away from
+        // the first sequence number the writer still advertises
+        let room = (p.max_sn - written).max(1) as u64;
+        let k = 1 + ctx.ch.draw(room.min(400));
+        ctx.logf(|| format!("w{wi} writes {k} samples, all delivered in order"));
+        for _ in 0..k {
+          let sn = self.writers[wi].written() + 1;
+          self.writers[wi].plans.push(Plan {
+            kind: Kind::Plain,
+            payload: payload_for(wi as u32, sn, 8),
+            src_ticks: None,
+          });
+          let subs = self.data_sub(wi, sn, wire::EID_UNKNOWN);
+          let keep = ctx.keep_lines;
+          ctx.keep_lines = false; // keep traces readable
+          self.push_flight(wi, subs, ctx);
+          let last = self.bag.len() - 1;
+          let r = self.deliver_at(last, false, ctx);
+          ctx.keep_lines = keep;
+          r?;
+        }
+        if k > 256 {
+          ctx.count("probe.healthy_stretch_over_256");
+        }
+      }
       _ => {
         // many samples written, every DATA lost on the way: the quick road to
         // missing-sets wider than one 256-bit window
@@ -536,6 +559,7 @@ impl World {
         }
       }
     }
+    Ok(())
   }
 
   fn emit_write(&mut self, wi: usize, p: &Params, ctx: &mut Ctx) {
@@ -896,6 +920,39 @@ impl World {
     }
     if self.focus == Focus::C03 {
       self.check_acknacks(wi, &hb_for_reader, &replies, now, ctx)?;
+    }
+    if self.focus == Focus::C05 {
+      // completeness: a sample all of whose fragments were delivered to a reader
+      // during the match (no GC ambiguity, not declared unavailable) is known to
+      // that reader's writer proxy as received
+      for ri in 0..self.readers.len() {
+        let t = &self.tracks[ri][wi];
+        let frag_sns: Vec<i64> = t
+          .received
+          .iter()
+          .copied()
+          .filter(|sn| self.writers[wi].plans[(*sn - 1) as usize].nfrags() > 0 && !t.ambiguous.contains(sn))
+          .collect();
+        if frag_sns.is_empty() {
+          continue;
+        }
+        if let Some(rv) = self.node.reader_view(&self.readers[ri].r) {
+          if let Some(px) = rv.matched_writers.iter().find(|m| m.writer == self.writers[wi].guid) {
+            for sn in frag_sns {
+              let known = sn < px.ack_base || px.changes.iter().any(|(s, _)| *s == sn);
+              if !known {
+                return Err(v(
+                  "C05/complete-fragment-set-not-assembled",
+                  format!(
+                    "every fragment of sn {sn} of writer {wi} was delivered to reader {ri}, but the reader does not have the sample (ack base {}, known {:?})",
+                    px.ack_base, px.changes
+                  ),
+                ));
+              }
+            }
+          }
+        }
+      }
     }
     // fold the abstract state into the fingerprint
     for ri in 0..self.readers.len() {
